@@ -155,4 +155,45 @@ O(id='uper_cwn.le31', props=['C01', 'C02'], kind='width', entry='h_cwn', functio
 O(id='uper_cwn.gt31', props=['C01', 'C02'], kind='width', entry='h_cwn', functions=['uper_put_constrained_whole_number_u', 'uper_get_constrained_whole_number'],
   unwind=34, defines=['VF_CWN_WIDE'], bound='all values, widths 32..64 (octet-aligned start; alignment is the business of asn_put_few_bits)', min_props=30, timeout=600, **PS)
 
-UNVERIFIED = {}
+# ---------------------------------------------------------------- C07: encoder API
+def cb_restrict(outer, inner):
+    """outer: callbacks the type encoder / bit stream can be handed in this harness; inner: what the forwarding wrappers forward to"""
+    return [(r'callback_failure_catch_cb::1::key\.callback', ['vf_cb']),
+            (r'callback_count_bytes_cb::1::key\.callback', inner),
+            (r'\.output\)$|::cb$|::callback$|consume_bytes$', outer)]
+CB_RESTRICT = cb_restrict(['callback_failure_catch_cb', 'callback_count_bytes_cb'], ['callback_failure_catch_cb'])
+API = dict(harness='harness/h_encode_api.c', fp_restrict=CB_RESTRICT, units=[SK + 'asn_application.c'], include=[], backends=['sat'],
+           link=[SK + f for f in ('asn_application.c', 'der_encoder.c', 'oer_encoder.c', 'per_encoder.c', 'xer_encoder.c', 'asn_bit_data.c', 'per_support.c', 'oer_support.c', 'ber_tlv_tag.c', 'ber_tlv_length.c')],
+           cbmc=['--unwindset', 'asn_put_few_bits:3'],
+           unverified=['constructed and generated encoders are assumed to obey the operation-slot convention that the stub encoder enumerates (chunks to the callback; ASN__ENCODE_FAILED on callback failure)'])
+APIB = 'stub type encoder hands at most 3 chunks of <= 8 octets (PER: one field of <= 31 bits) to the callback; every transfer syntax value; every callback failure point'
+SYNTAXES = [(0, 'INVALID'), (1, 'PLAINTEXT'), (2, 'RANDOM'), (3, 'BER'), (4, 'DER'), (5, 'CER'), (6, 'BASIC_OER'), (7, 'CANONICAL_OER'),
+            (8, 'BASIC_UPER'), (9, 'CANONICAL_UPER'), (10, 'BASIC_XER'), (11, 'CANONICAL_XER'), (12, 'out-of-range')]
+for _c, _n in SYNTAXES:
+    O(id='asn_encode.' + _n, props=['C07'], kind='bounded', entry='h_asn_encode', defines=['VF_SYN=%d' % _c],
+      functions=['asn_encode', 'asn_encode_internal', 'callback_failure_catch_cb', 'callback_count_bytes_cb', 'der_encode', 'oer_encode', 'uper_encode', '_uper_encode_flush_outp', 'xer_encode'],
+      unwind=10, bound=APIB, min_props=20, timeout=600, **API)
+    O(id='asn_encode_to_buffer.' + _n, props=['C07'], kind='bounded', entry='h_asn_encode_to_buffer', defines=['VF_SYN=%d' % _c],
+      tier='experimental' if 'UPER' in _n else 'quick',
+      functions=['asn_encode_to_buffer', 'overrun_encoder_cb', 'asn_encode_internal'],
+      unwind=10, bound=APIB + '; every pair of buffer sizes 0..40', min_props=20, timeout=600,
+      **dict(API, fp_restrict=cb_restrict(['overrun_encoder_cb', 'callback_count_bytes_cb'], ['overrun_encoder_cb'])))
+    O(id='asn_encode_to_new_buffer.' + _n, props=['C07', 'C14'], kind='bounded', entry='h_asn_encode_to_new_buffer', defines=['VF_SYN=%d' % _c],
+      tier='experimental' if 'UPER' in _n else 'quick',
+      functions=['asn_encode_to_new_buffer', 'dynamic_encoder_cb', 'asn_encode_internal'],
+      unwind=10, bound=APIB + '; every allocation may fail', min_props=20, timeout=600,
+      **dict(API, fp_restrict=cb_restrict(['dynamic_encoder_cb', 'callback_count_bytes_cb'], ['dynamic_encoder_cb']),
+             cbmc=['--unwindset', 'asn_put_few_bits:3', '--malloc-may-fail', '--malloc-fail-null', '--memory-leak-check']))
+O(id='der_encode_to_buffer', props=['C07'], kind='bounded', entry='h_der_encode_to_buffer', functions=['der_encode_to_buffer', 'encode_to_buffer_cb'],
+  unwind=10, bound=APIB, min_props=30, **dict(API, fp_restrict=None))
+O(id='uper_encode_to_buffer', props=['C07'], kind='bounded', tier='experimental', entry='h_uper_encode_to_buffer', functions=['uper_encode_to_buffer', 'uper_encode', 'encode_to_buffer_cb'],
+  unwind=10, bound=APIB, min_props=30, **dict(API, fp_restrict=cb_restrict(['encode_to_buffer_cb', 'encode_to_buffer_cb$link1', 'encode_to_buffer_cb$link2'], [])))
+O(id='uper_encode_to_new_buffer', props=['C07', 'C14'], kind='bounded', tier='experimental', entry='h_uper_encode_to_new_buffer', functions=['uper_encode_to_new_buffer', 'encode_dyn_cb'],
+  unwind=10, bound=APIB + '; every allocation may fail', min_props=30,
+  **dict(API, fp_restrict=cb_restrict(['encode_dyn_cb'], []), cbmc=['--unwindset', 'asn_put_few_bits:3', '--malloc-may-fail', '--malloc-fail-null', '--memory-leak-check']))
+
+UNVERIFIED = {
+ 'C07': ['asn_encode_to_buffer / asn_encode_to_new_buffer / uper_encode_to_buffer / uper_encode_to_new_buffer with a UPER type encoder: obligations exist (tier experimental) but do not discharge (symbolic-length memcpy of the 32-octet bit scratch space runs out of memory); asn_encode with UPER is covered',
+         'every constructed / generated type encoder is assumed to follow the operation-slot convention enumerated by the stub encoder',
+         'XER encoders of concrete types (text produced through snprintf)'],
+}
